@@ -19,18 +19,42 @@ import collections
 import corpus
 import engine_run as er
 
+import glob
+import os
+
+import vlib
+
+
+def _keep_vmain_alive():
+    """workaround for a shared-cache race (vlib.prune_cache removes the oldest cache directories at the end of any
+    check; the shared vmain-<hash>/vmain.o is never touched after creation and can vanish under a concurrent run)"""
+    for d in glob.glob(os.path.join(vlib.BUILD, "corpus", "vmain-*")):
+        try:
+            os.utime(d)
+        except OSError:
+            pass
+
+
+_keep_vmain_alive()
+
 MAXLEN = {"quick": 4, "thorough": 5}
 BASE_CORPUS = True
 
-# tags of the shared systematic corpus that are re-run with eol bytes in the alphabet
-WANT_TAGS = ["atoms", "seq2", "sor2", "star1", "plus1", "opt1", "at1", "not_at1", "until1", "until2", "rep2", "rep_min_max12", "rep_opt2",
-             "if_then_else", "if_must", "must1", "list", "pad", "partial", "strict", "star_strict", "rematch", "minus", "tc_false", "tc_nested",
-             "state", "action3", "if_apply0", "apply_seq", "raise_msg", "disable_enable", "star_must"]
+# the shared corpus contributes its "atoms" family; a tag subset of the systematic family is re-generated in
+# extra_grams with line ends in the alphabet
+WANT_TAGS = ["atoms"]
+SYS_TAGS = {
+    "quick": ["star1", "at1", "until1", "until2", "must1", "rematch", "tc_nested", "state", "if_apply0"],
+    "thorough": ["seq2", "sor2", "star1", "plus1", "opt1", "at1", "not_at1", "until1", "until2", "rep2", "rep_min_max12", "rep_opt2",
+                 "if_then_else", "if_must", "must1", "list", "pad", "partial", "strict", "star_strict", "rematch", "minus", "tc_false", "tc_nested",
+                 "state", "action3", "if_apply0", "apply_seq", "raise_msg", "disable_enable", "star_must"],
+}
 
 KNOWN_SIGS = {
     "KNOWN:cr_crlf-eol": "eol::cr_crlf: eol/eolf on CR LF bumps to column 1 but the LF is not the eol character (eager 2:2:1, lazy 2:2:2)",
     "KNOWN:mask-uint8": "uint8::mask_* rule matching the eol byte: bump_help tests the unmasked eol character (eager 1:1:2, lazy 1:2:1)",
     "KNOWN:lazy-byte-init": "lazy memory_input::byte() ignores the initial byte counter: bof matches at the start of a lazy input constructed with initial byte 7, not of an eager one",
+    "KNOWN:lazy-rematch": "rematch< Head, Rules... > under tracking_mode::lazy: the inner input restarts counting at 0:1:1, positions reported inside Rules are relative to the rematched span",
 }
 
 POLICIES = ("lf", "cr", "crlf", "lf_crlf", "cr_crlf")
@@ -120,7 +144,10 @@ def table_flags(K):
             seen.add(x)
             todo += K.table[x]["subs"]
         toks = [K.table[x]["head"] for x in seen]
-        f = {"excluded": False, "mask8": [], "eol": False, "bof": False}
+        f = {"excluded": False, "mask8": [], "eol": False, "bof": False, "rematch": False}
+        for x in seen:
+            if K.table[x]["head"][:1] == ["rematch"] and len(K.table[x]["subs"]) >= 2:
+                f["rematch"] = True
         for h in toks:
             if not h:
                 continue
@@ -141,7 +168,7 @@ def table_flags(K):
 def oracle(K, rec, counters):
     out = []
     pol, lazy, init, key = cfg_parts(rec["cfg"])
-    flags = table_flags(K).get(rec["gid"], {"excluded": False, "mask8": [], "eol": False, "bof": False})
+    flags = table_flags(K).get(rec["gid"], {"excluded": False, "mask8": [], "eol": False, "bof": False, "rematch": False})
     if flags["excluded"]:
         counters["records_excluded_as_documented"] += 1
         return out
@@ -169,6 +196,8 @@ def oracle(K, rec, counters):
             out.append("KNOWN:cr_crlf-eol|" + bad)
         elif dev_mask and not lazy:
             out.append("KNOWN:mask-uint8|" + bad)
+        elif lazy and flags["rematch"]:
+            out.append("KNOWN:lazy-rematch|" + bad)
         else:
             out.append(("lazy" if lazy else "eager") + " tracking, eol::" + pol + ": " + bad)
     # eager / lazy twins: the two implementation records must be identical
@@ -195,6 +224,8 @@ def oracle(K, rec, counters):
                 out.append("KNOWN:mask-uint8|" + msg)
             elif flags["bof"] and init[0] != 0:
                 out.append("KNOWN:lazy-byte-init|" + msg)
+            elif flags["rematch"]:
+                out.append("KNOWN:lazy-rematch|" + msg)
             else:
                 out.append("eol::" + pol + ": " + msg)
     return out
@@ -202,11 +233,16 @@ def oracle(K, rec, counters):
 
 def projection(rec, K, model):
     """everything: result with positions, final cursor, every event with its positions.
-    bof under lazy tracking with a non-zero initial byte is outside the (eager) engine model: the lazy input's byte()
-    is the offset from begin() — judged by the oracle (eager/lazy twin comparison), not by the model comparison."""
+    Two behaviours of LAZY inputs are outside the (eager) engine model and are judged by the oracle (eager/lazy twin
+    comparison) instead of the model comparison: bof with a non-zero initial byte (a lazy input's byte() is the offset
+    from begin()), and positions inside rematch (the inner lazy input restarts at 0:1:1) — for the latter the result
+    kind and the final position are still compared."""
     pol, lazy, init, key = cfg_parts(rec["cfg"])
-    if lazy and init[0] != 0 and table_flags(K).get(rec["gid"], {}).get("bof"):
+    fl = table_flags(K).get(rec["gid"], {})
+    if lazy and init[0] != 0 and fl.get("bof"):
         return "lazy-bof-with-initial-byte"
+    if lazy and fl.get("rematch"):
+        return rec["res"][:1] + "|" + rec["cur"]
     res = er.canon_model_res(K, rec) if model else er.canon_impl_res(rec)
     return res + "|" + rec["cur"] + "|" + rec["events"]
 
@@ -260,6 +296,16 @@ def extra_grams(tier, seed, start_gid):
                 g.maxlen += 1
             out.append(g)
             gid += 1
+    # a tag subset of the shared systematic family (head x behaviour basis x calling context), line ends in the alphabet
+    want = set(SYS_TAGS[tier])
+    for sg in corpus.systematic("quick"):       # the quick-size family also in the thorough tier (more tags, longer inputs)
+        if sg.tags & want:
+            sg.gid = gid
+            sg.tags |= {"c06sys"}
+            sg.alphabet = "abc\n\r"
+            sg.maxlen = 3 if tier == "quick" else 4
+            out.append(sg)
+            gid += 1
     # documented deviations (known-finding witnesses) and the lazy byte() observation
     dev = [
         ("seq< eol, star< any > >", "a\r\n", ["c06", "dev:cr_crlf"]),
@@ -283,21 +329,23 @@ def uses(g, word):
 
 
 def choose_cfgs(g, k, tier):
-    """every grammar under every eol policy, each eager configuration together with its lazy twin; non-default
-    initial counters for a rotating subset of the policies (all in the thorough tier)."""
-    if "atoms" not in g.tags and "c06" not in g.tags:
-        # shared systematic grammars: put line ends into their alphabet
-        g.alphabet = "abc\n\r"
-        g.maxlen = 3 if tier == "quick" else 4
+    """each eager configuration together with its lazy twin.  Only Eol::ch matters to every rule except eol / eolf,
+    so grammars without them run under one policy of each class ('\\n': lf crlf lf_crlf; '\\r': cr cr_crlf), rotating;
+    grammars with eol / eolf and the atoms family run under all five.  Non-default initial counters for a rotating
+    policy (all in the thorough tier)."""
     lazy_ok = not uses(g, "bol")            # bol reads in.column(), which a lazy input does not have (does not compile)
     fams = [("act1", "ctl2", 1, 1), ("act3", "ctl2", 1, 0), ("act1", "ctl3", 1, 0), ("act3", "ctl0", 1, 1), ("act0", "ctl2", 0, 1)]
+    if "atoms" in g.tags or (tier == "thorough" and "c06sys" not in g.tags) or uses(g, "eol") or uses(g, "eolf"):
+        pols = list(POLICIES)
+    else:
+        pols = [("lf", "crlf", "lf_crlf")[k % 3], ("cr", "cr_crlf")[k % 2]]
     out = []
-    for i, e in enumerate(POLICIES):
+    for i, e in enumerate(pols):
         base = fams[0] if tier == "quick" else fams[(k + i) % 2 * 2]
         out.append(base + (e,))
         if lazy_ok:
             out.append(base + (e, "lazy"))
-        if tier == "thorough" or (k + i) % 5 == 0:
+        if ("atoms" in g.tags and tier == "thorough") or (tier == "thorough" and i % 2 == k % 2) or ("c06sys" not in g.tags and i == k % len(pols)):
             alt = fams[1 + (k + i) % 4]
             out.append(alt + (e, "init"))
             if lazy_ok:
